@@ -10,7 +10,7 @@ from . import c11
 
 ID = "C18"
 LEVEL = "exploration"
-RUNS = (1000, 40000)
+RUNS = (1000, 16000)
 FLAVOURS = ("asan", "tsan")
 RULE = ("2-16 caller threads, each with a private sub-tree and private objects, run seeded programs (layered reads of all kinds, "
         "single-file reads incl. failing ones, set/get histories, merge, write + read-back, error strings) under a seeded "
